@@ -344,7 +344,9 @@ def occ_stack(rng, root, holders, extent, allow_shape=True):
     leader = rng.choice(holders)
     for j in range(nocc):
         size = rng.choice([1, 2, 3, 5])
-        # all occupancy levels of one rank follow the same leader in the accepted language
+        # usually all occupancy levels of one rank follow the same leader; sometimes each level has its own
+        if j and rng.random() < 0.35:
+            leader = rng.choice(holders)
         if rng.random() < 0.2:
             name = root + str(total - 1 - len(dirs))
             syms[name] = size
@@ -538,8 +540,13 @@ def gen_affine(rng, allow_k3=False, allow_occ=False):
             terms.append(_iterm(d["b"], d["s"].lower()))
             f_ranks.append(d["s"]); f_acc.append(d["s"].lower())
         i_acc.append(" + ".join(terms))
+    # a second reduction variable inside the first affine access: O[q] = I[q + s + 2*v] * F[s] * G[v]
+    two_red = ndim == 1 and dims[0]["s"] and not chan_c and not chan_m and rng.random() < 0.15
+    if two_red:
+        dims[0]["c"] = rng.choice([1, 1, 2])
+        i_acc[-1] = i_acc[-1] + " + " + _iterm(dims[0]["c"], "v")
     # a second output variable inside the first affine access: O[p2, q] = I[p2 + q + s] * F[s]
-    two_out = ndim == 1 and dims[0]["s"] and not chan_c and not chan_m and rng.random() < 0.2
+    two_out = ndim == 1 and dims[0]["s"] and not chan_c and not chan_m and not two_red and rng.random() < 0.2
     if two_out:
         o_ranks.insert(0, "P"); o_acc.insert(0, "p")
         i_acc[-1] = "p + " + i_acc[-1]
@@ -550,8 +557,11 @@ def gen_affine(rng, allow_k3=False, allow_occ=False):
         facs.append("F[" + ", ".join(f_acc) + "]")
         if rng.random() < 0.5:
             facs.reverse()
-    # a third operand living on the (possibly partitioned) output rank: I[q+s] * B[q] * F[s]
-    third = any_filter and not two_out and rng.random() < 0.2
+    if two_red:
+        decl_items.append(("G", ["V"]))
+        facs.insert(rng.randrange(len(facs) + 1), "G[v]")
+    # a third operand living on the (possibly partitioned) output rank: I[q+s] * B[q] * F[s], I[2*q] * B[q]
+    third = not two_out and rng.random() < (0.2 if any_filter else 0.4)
     if third:
         decl_items.append(("B", [dims[0]["q"]]))
         facs.insert(rng.randrange(len(facs) + 1), "B[%s]" % dims[0]["q"].lower())
@@ -576,6 +586,9 @@ def gen_affine(rng, allow_k3=False, allow_occ=False):
         if d["s"]:
             extents[d["s"]] = rng.randint(1, 4)
             terms.append((d["s"], d["b"]))
+        if d.get("c"):
+            extents["V"] = rng.randint(1, 3)
+            terms.append(("V", d["c"]))
         derived[d["w"]] = (terms, 0)
         extents[d["w"]] = sum(c * (extents[r] - 1) for r, c in terms) + 1
     if chan_c:
@@ -656,12 +669,14 @@ def gen_affine(rng, allow_k3=False, allow_occ=False):
             groups.append(["M"])
         if two_out:
             groups.append(["P"])
+        if two_red:
+            groups.append(["V"])
         spec["loop_order"] = {"O": loop_order_over(rng, groups, "ordered")}
     if part:
         spec["partitioning"] = {"O": part}
     meta = {"ranks": default_loop_order(spec, "O"), "dims": dims, "extents": extents, "derived_extents": derived,
             "part": part, "syms": {}, "lo_mode": lo_mode, "nlevels": sum(plevels.values()), "npart": len(plevels),
-            "out_only": [], "kind": "affine", "third": third, "two_out": two_out, "twin": twin, "occ": any_occ, "extra_params": extra_params}
+            "out_only": [], "kind": "affine", "third": third, "two_out": two_out, "two_red": two_red, "twin": twin, "occ": any_occ, "extra_params": extra_params}
     return spec, meta
 
 
@@ -877,6 +892,33 @@ def gen_spacetime(rng):
     return spec, meta
 
 
+def gen_cascade_spacetime(rng):
+    """Cascade (class K) in which some Einsums carry a spacetime and some do not (a later Einsum with slip,
+    an earlier one without, ...): per-Einsum display state must not leak from one Einsum to the next."""
+    spec, meta = gen_cascade(rng, n_max=3)
+    outs = [dense.output_name(e) for e in spec["exprs"]]
+    st_map = {}
+    for o, em in zip(outs, meta["einsums"]):
+        if rng.random() < 0.35:
+            continue
+        if em["kind"] in ("flatten", "occ") and not (spec.get("loop_order") or {}).get(o):
+            continue
+        loop_ranks = effective_loop_order(spec, o)
+        flat_roots = []
+        for key in ((spec.get("partitioning") or {}).get(o) or {}):
+            if key.startswith("("):
+                flat_roots.append("".join(x.strip() for x in key.strip("() ").split(",")))
+        st = add_spacetime(rng, spec, o, loop_ranks, no_coord=[f.rstrip("0123456789") for f in flat_roots] + flat_roots)
+        st_map[o] = {"st": st, "loop_ranks": loop_ranks}
+    if not st_map:
+        o = outs[-1]
+        if not ((spec.get("partitioning") or {}).get(o)):
+            loop_ranks = effective_loop_order(spec, o)
+            st_map[o] = {"st": add_spacetime(rng, spec, o, loop_ranks), "loop_ranks": loop_ranks}
+    meta.update({"base": "K", "st_map": st_map, "st": None, "loop_ranks": []})
+    return spec, meta
+
+
 # --------------------------------------------------------------------- mixtures
 
 def gen_mixed(rng, weights=None):
@@ -895,6 +937,8 @@ def gen_mixed(rng, weights=None):
         spec, meta = gen_cascade(rng)
     elif c == "T":
         spec, meta = gen_spacetime(rng)
+    elif c == "TK":
+        spec, meta = gen_cascade_spacetime(rng)
     elif c == "M":
         from gen import metrics as gm
         from sim import orch
